@@ -270,6 +270,12 @@ func (r *Run) execViewTx(t *Task, idx int, tx *TxPlan) {
 	begin := r.s.NextSeq()
 	var first string
 	err := r.db.View(func(btx *bbolt.Tx) error {
+		if r.s.ReloadHeld() {
+			// a read transaction begins on the live database while a restore holds the reload lock
+			viol = &Violation{Props: []string{"C17"}, Oracle: "snapshot", Sig: "tx-started-while-restore-holds-lock",
+				Detail: id + ": a read transaction began while the restore held the reload lock"}
+			return nil
+		}
 		r.mu.Lock()
 		r.openViews++
 		exp := r.committed
@@ -317,12 +323,14 @@ func (r *Run) execViewTx(t *Task, idx int, tx *TxPlan) {
 	})
 	end := r.s.NextSeq()
 	if err != nil {
-		r.violate(Violation{Props: props, Oracle: "isolation", Sig: "view-error", Detail: fmt.Sprintf("%s: Db.View failed: %v", id, err)})
-		panic(abortSig{})
+		if r.violate(Violation{Props: props, Oracle: "isolation", Sig: "view-error", Detail: fmt.Sprintf("%s: Db.View failed: %v", id, err)}) {
+			panic(abortSig{})
+		}
 	}
 	if viol != nil {
-		r.violate(*viol)
-		panic(abortSig{})
+		if r.violate(*viol) {
+			panic(abortSig{})
+		}
 	}
 	r.recordHist(histOp{Task: t.Name, Kind: "r", Call: begin, Ret: end, Nonce: first})
 	t.Yield("view.end", NeedNone)
